@@ -123,7 +123,8 @@ def oracle(ranges, start, stop, shepof_seg, ss, active):
 
 
 def known_class(kind, dkind, start, stop, ss, segshep, sps, extras):
-    """input classes of the open findings (known_findings.json)"""
+    """input classes of the former findings (fixed in /repo: known_findings.json) -- nothing is excused any more"""
+    return None
     if dkind in (0, 3):         # FIXED_HASH, DIST
         if start % ss != 0:
             return "strider-midsegment-start"
@@ -175,7 +176,9 @@ def run(ctx):
             its += [(k, 0, count) for k in (1, 2, 3)][: (1 if quick else 3)]
             if ai in fixed_its:
                 its = fixed_its[ai] + its
-            ye = r2.choice([0, 0, 3, 50])
+            # callbacks that yield: only on small arrays (every yield is a scheduler round trip; on a loaded machine
+            # the ticket locks convoy and a large array would run into the watchdog without anything being wrong)
+            ye = r2.choice([0, 0, 3, 50]) if count <= 4096 else 0
             script.append("A %d %d %d %d %d" % (count, obj, d, tight, segpages))
             script.append("S")
             script.append("e " + " ".join(map(str, probes)))
@@ -309,7 +312,7 @@ def run(ctx):
                         "ranges with every alignment of start/stop to segment boundaries; non-trivial = iteration that put work on >= 2 shepherds",
                    traces_validated_against_impl=evals, input_distribution=dist_hist, configs=configs,
                    correspondence_mismatches=len(mismatches),
-                   refuted_on_current_tree=["strider_midsegment_refuted", "fields_loopstrider_refuted", "fields_midregion_refuted"])
+                   refuted_on_current_tree=["shep_slot_refuted (DIST id slot for seg_pages >= ~1366, outside the generated sizes)"])
     broken = bool(mismatches) or not pr["ok"]
     seen_known = {}
     unknown = [(w, c) for (s, w, c) in oracle_fail if s is None or core.match_known("C17", s) is None]
